@@ -78,11 +78,12 @@ varintWidth varintPFORComputeThreshold(const uint64_t *values, uint32_t count,
     /* Calculate exception marker */
     uint64_t marker = varintPFORCalculateMarker(width);
 
-    /* Count exceptions - values above threshold percentile */
+    /* Count exceptions - values above threshold percentile, and any value
+     * whose offset equals the marker (it would be read back as an
+     * exception placeholder, so it must be stored as one) */
     uint32_t exceptionCount = 0;
     for (uint32_t i = 0; i < count; i++) {
-        if (values[i] > thresholdValue) {
-            /* Value above threshold is an exception */
+        if (values[i] > thresholdValue || values[i] - min == marker) {
             exceptionCount++;
         }
     }
@@ -159,8 +160,11 @@ size_t varintPFOREncode(uint8_t *dst, const uint64_t *values, uint32_t count,
     for (uint32_t i = 0; i < count; i++) {
         uint64_t value = values[i];
 
-        if (value > meta->thresholdValue && exceptions) {
-            /* Above threshold: store exception marker */
+        if ((value > meta->thresholdValue ||
+             value - meta->min == meta->exceptionMarker) &&
+            exceptions) {
+            /* Above threshold (or offset collides with the marker):
+             * store exception marker */
             varintExternalPutFixedWidth(dst, meta->exceptionMarker,
                                         meta->width);
             exceptions[exceptionIdx].index = i;
